@@ -21,7 +21,7 @@ LEVEL_TEXT = ("Each program is grounded under 6 (quick) / 24 (thorough) seeded p
 LEVEL_NOTE = ("Instrumentation is a harness-side subclass of MessageFIFO (no repo hook). Known engine crashes (KF-A/KF-B) may appear or "
               "disappear under other orders on the non-clean input class; they are listed findings keyed by call site + input class.")
 TECHNIQUE = "runtime schedule perturbation (seeded message-queue shuffling) + differential and reference-model oracles"
-BUDGET = {"quick": 700, "thorough": 12000}
+BUDGET = {"quick": 700, "thorough": 7000}
 TIME_BUDGET = {"quick": 220, "thorough": 3300}
 CASE_TIMEOUT = 40
 WATCHDOG_FRACTION = 0.04
